@@ -28,7 +28,7 @@ func init() {
 		ID: "C14", HangIsViolation: true, Gen: genC14, GenRace: genC14Race, Run: runC14, Quick: 2000, Thorough: 250000, RaceQuick: 500, RaceThorough: 12000,
 		Real: []string{"pkg/exporter: InitExportingProcess, SendSet, template refresh goroutine (UDP), connection-check goroutine (TCP), CloseConnToCollector / closeConnToCollector", "pkg/entities"},
 		Stub: []string{"OS sockets (simnet; after the peer's FIN a write succeeds and vanishes, as with a real kernel)", "wall clock (synctest bubble)", "goroutine scheduling (sim layer: seeded baton scheduler with preemptions; race layer: Go scheduler under the race detector, application confined to one goroutine)"},
-		Rule: "application sends placed on / 1 ns around refresh ticks, first template before or after the first tick, peer close at a seeded time, write error on a refresh datagram, CloseConnToCollector from 1-3 other goroutines concurrently and repeatedly, sends after Close; non-trivial = at least one refresh burst or connection check overlapped with application activity, or a concurrent Close; distinct = distinct event-log hash (sim) / plan seed (race)",
+		Rule: "application sends placed on / 1 ns around refresh ticks, first template before or after the first tick, peer close at a seeded time, write error on a refresh datagram, CloseConnToCollector from 1-3 other goroutines concurrently and repeatedly, sends after Close; a tenth of the plans run a SendJSONRecord exporter (templates, data, time across ticks / probes, close: the wire is one JSON document per record and nothing else); non-trivial = at least one refresh burst or connection check overlapped with application activity, or a concurrent Close; distinct = distinct event-log hash (sim) / plan seed (race)",
 	})
 }
 
@@ -36,6 +36,10 @@ func genC14(seed uint64, tier string) *plan.Plan {
 	initC09Index()
 	r := rand.New(rand.NewPCG(seed, 0xc14))
 	pl := &plan.Plan{Cfg: map[string]int64{}}
+	if r.IntN(15) == 0 {
+		genTwoExporters(r, pl)
+		return pl
+	}
 	udp := r.IntN(3) > 0
 	pl.Cfg["domain"] = int64(r.Uint32())
 	// the exporting process is not created on a whole second: its ticks fall inside seconds
@@ -187,6 +191,11 @@ func genC14Race(seed uint64, tier string) *plan.Plan {
 func runC14(pl *plan.Plan, out *plan.Outcome) {
 	if cfgOr(pl, "json", 0) == 1 {
 		runC14JSON(pl, out)
+		return
+	}
+	if cfgOr(pl, "two", 0) == 1 {
+		// what one exporting process writes is its own: never another process's bytes
+		runTwoExporters(pl, out, func(s *expSession) { s.checkWire("C14") })
 		return
 	}
 	env := newEnv(pl, out, keepLogFlag)
